@@ -190,7 +190,9 @@ Step ==
        [] e.e \in {"op", "exec_begin", "exec_end"} ->
             UNCHANGED <<ph, deliv, blk, awaited, insec, secBoth, failObs, ended, inl, viol, cnt>>
        [] OTHER ->
-            /\ viol' = Mark({IF known THEN "WF.unknown-event" ELSE "C03.extra"}, e.e)
+            \* a node event for something that is not a call site of the configuration (an argument holder executed,
+            \* a foreign node): C03.extra; any other unknown event is an ill-formed trace
+            /\ viol' = Mark({IF e.e \in {"dispatch", "enter", "exit", "skip"} /\ ~known THEN "C03.extra" ELSE "WF.unknown-event"}, e.e)
             /\ UNCHANGED <<ph, deliv, blk, awaited, insec, secBoth, failObs, ended, inl, cnt>>
 
 Spec == Init /\ [][Step]_vars
